@@ -9,7 +9,9 @@ fn fwd(op: &Op, _ctx: &dyn Context, operands: &mut dyn CoordinateSet) -> usize {
     let k_0 = op.params.k(0);
     let x_0 = op.params.x(0);
     let y_0 = op.params.y(0);
-    let lat_0 = op.params.lat(0);
+    // lat_0 is the latitude of the origin of the northings (0 for the customary Mercator)
+    let lat_0 = op.params.lat(0).to_radians();
+    let isometric_0 = ellps.latitude_geographic_to_isometric(lat_0);
     let lon_0 = op.params.lon(0).to_radians();
 
     let mut successes = 0_usize;
@@ -17,7 +19,7 @@ fn fwd(op: &Op, _ctx: &dyn Context, operands: &mut dyn CoordinateSet) -> usize {
         let (lon, lat) = operands.xy(i);
 
         let easting = (lon - lon_0) * k_0 * a + x_0;
-        let isometric = ellps.latitude_geographic_to_isometric(lat + lat_0);
+        let isometric = ellps.latitude_geographic_to_isometric(lat) - isometric_0;
         let northing = a * k_0 * isometric + y_0;
 
         operands.set_xy(i, easting, northing);
@@ -35,7 +37,8 @@ fn inv(op: &Op, _ctx: &dyn Context, operands: &mut dyn CoordinateSet) -> usize {
     let k_0 = op.params.k(0);
     let x_0 = op.params.x(0);
     let y_0 = op.params.y(0);
-    let lat_0 = op.params.lat(0);
+    let lat_0 = op.params.lat(0).to_radians();
+    let isometric_0 = ellps.latitude_geographic_to_isometric(lat_0);
     let lon_0 = op.params.lon(0).to_radians();
 
     let mut successes = 0_usize;
@@ -48,8 +51,8 @@ fn inv(op: &Op, _ctx: &dyn Context, operands: &mut dyn CoordinateSet) -> usize {
 
         // Northing -> Latitude
         y -= y_0;
-        let psi = y / (a * k_0);
-        let lat = ellps.latitude_isometric_to_geographic(psi) - lat_0;
+        let psi = y / (a * k_0) + isometric_0;
+        let lat = ellps.latitude_isometric_to_geographic(psi);
         operands.set_xy(i, lon, lat);
         successes += 1;
     }
